@@ -38,6 +38,7 @@ SHEET_NAMES_EXTRA = {
 # excluded by construction elsewhere (they are finding 11): digit-leading, punctuation
 NUM_CONST = [0.0, 1.0, 2.0, 3.0, 5.0, 7.0, -1.0, -4.0, 0.5, 2.5, -1.5, 10.0, 100.0, 0.25]
 TXT_CONST = ['ab', 'x', 'Hello', 'abc', 'ZZ', 'q', '#N/A yet', '#REF! was here']  # the last two: text that merely starts like an error value
+FNAME_POOL = ['Dbl_1x', 'K.rate']  # names defined by a formula
 NAME_POOL = ['TOTAL_IN', 'my_name', 'Rate.x', 'XNAME']  # must not look like a cell reference (RN1 is column RN row 1)
 ERR_CONST = ['#N/A', '#DIV/0!', '#VALUE!', '#REF!', '#NUM!', '#NAME?', '#NULL!']
 
@@ -96,7 +97,7 @@ def has_xbook(t, cur, names):
     return False
 
 
-def render(spec, t, cur, full, linkidx=None):
+def render(spec, t, cur, full, linkidx=None, absolute=False):
     """Formula text of a tree hosted at cell `cur` = (b, s, r, c).  full=True:
     every reference fully qualified ('[book]sheet'!A1).  linkidx {book: k}: references to
     other books in the numbered-link form xlsx files contain ([k]Sheet!A1)."""
@@ -124,12 +125,14 @@ def render(spec, t, cur, full, linkidx=None):
             return 'TRUE' if t[1] else 'FALSE'
         if k == 'err':
             return t[1]
+        if k == 'fname':
+            return spec['fnames'][t[1]]['name']
         if k == 'ref':
             b, s, r, c = t[1]
-            return q(b, s) + a1(r, c, len(t) > 2 and t[2])
+            return q(b, s) + a1(r, c, absolute or (len(t) > 2 and t[2]))
         if k == 'rng':
             b, s, r1, c1, r2, c2 = t[1]
-            ab = len(t) > 2 and t[2]
+            ab = absolute or (len(t) > 2 and t[2])
             return q(b, s) + a1(r1, c1, ab) + ':' + a1(r2, c2, ab)
         if k == 'col':
             b, s, c1, c2 = t[1]
@@ -170,6 +173,8 @@ def to_dict(spec):
             d[qual_full(spec, b, s) + a1(r, c)] = const_out(cell['v'])
     for nm in spec.get('names', []):
         d[nm['name']] = '=' + (spec['names'][nm['alias']]['name'] if 'alias' in nm else rect_id_raw(spec, nm['rect'], ab=True))
+    for fn in spec.get('fnames', []):
+        d[fn['name']] = '=' + render(spec, fn['f'], (fn['book'], -1, 0, 0), True, absolute=True)
     return d
 
 
@@ -253,6 +258,9 @@ def write_files(spec, dirpath, sheet_order=None, links=None, stale=True):
             if 'alias' in nm:
                 txt = names[nm['alias']]['name']
             wb.defined_names[nm['name']] = DefinedName(nm['name'], attr_text=txt)
+        for fn in spec.get('fnames', []):
+            if fn['book'] == b:
+                wb.defined_names[fn['name']] = DefinedName(fn['name'], attr_text=render(spec, fn['f'], (b, -1, 0, 0), False, absolute=True))
         if links is not None and len(spec['books']) > 1:
             from openpyxl.packaging.relationship import Relationship
             from openpyxl.workbook.external_link.external import ExternalLink, ExternalBook
@@ -280,7 +288,7 @@ def workdir():
 
 
 # ---------------------------------------------------------------- solution -> flat map
-def flatten(sol, max_rows=60, supplied=()):
+def flatten(sol, max_rows=60, supplied=(), raw_ok=()):
     """-> (flat, conflicts): flat = {(SHEET_ID, r, c): value} from every
     solution node that is a single-area Ranges; a cell seen through two nodes
     with different values is a conflict."""
@@ -291,7 +299,8 @@ def flatten(sol, max_rows=60, supplied=()):
         if not isinstance(v, sut.Ranges):
             # every cell / range / name node of a model holds a Ranges; a raw Python object there is foreign
             # (a node the caller supplied as input may come back as given when it lies outside the requested outputs)
-            if k not in supplied:
+            # (the node of a name defined by a formula holds whatever that formula returned: raw_ok)
+            if k not in supplied and str(k).upper().split('!')[-1] not in raw_ok:
                 conflicts.append(('raw-node-value', str(k), type(v).__name__))
             continue
         if len(v.ranges) != 1:
@@ -378,6 +387,9 @@ def tree_form(spec, t, cur):
             forms.add({'ref': 'cell', 'rng': 'range', 'col': 'wholecol'}[k] + '-' + where)
         elif k == 'name':
             forms.add('name')
+        elif k == 'fname':
+            forms.add('name')
+            go(t[2])
         elif k == 'bin':
             go(t[2]); go(t[3])
         elif k == 'neg':
@@ -406,6 +418,8 @@ def features_of(spec):
         f.add('multi-sheet')
     if spec.get('names'):
         f.add('names')
+    if spec.get('fnames'):
+        f.add('formula-names')
     for b in spec['books']:
         for s in b['sheets']:
             for cls, lst in dict(SHEET_NAMES, **SHEET_NAMES_EXTRA).items():
@@ -427,7 +441,7 @@ def depth_levels(spec):
 # ---------------------------------------------------------------- strategy
 @st.composite
 def specs(draw, tier='quick', max_books=2, arrays=True, names=True, wholecols=True, errors=True,
-          min_cells=4, max_cells=14, const=None, sheet_classes=None, name_rate=6, arr_rate=10, alias_rate=0):
+          min_cells=4, max_cells=14, const=None, sheet_classes=None, name_rate=6, arr_rate=10, alias_rate=0, fname_rate=0):
     nb = draw(st.integers(1, max_books))
     used_names = set()
     books = []
@@ -444,6 +458,8 @@ def specs(draw, tier='quick', max_books=2, arrays=True, names=True, wholecols=Tr
     taken = set()
     cells = []
     spec = {'books': books, 'cells': cells, 'names': []}
+    if fname_rate:
+        spec['fnames'] = []
     pos_list = []
     for i in range(ncell):
         b, s = draw(st.sampled_from(locs))
@@ -481,6 +497,27 @@ def specs(draw, tier='quick', max_books=2, arrays=True, names=True, wholecols=Tr
                     # a second name defined as the first one (ALIAS = BASE): same cells, one more inverse link in the chain
                     j = len(spec['names']) - 1
                     spec['names'].append({'name': NAME_POOL[j + 1], 'rect': list(rect), 'since': idx, 'alias': j})
+        if fname_rate and len(spec['fnames']) < 2 and draw(st.integers(0, fname_rate - 1)) == 0:
+            # a name defined by a formula over earlier cells of this book (or by a constant)
+            mine = [k_ for k_ in earlier if k_[0] == key[0]]
+            kind_ = draw(st.integers(0, 3))
+            ft = None
+            if kind_ == 0 or not mine:
+                ft = ['num', draw(st.sampled_from([0.25, 2.0, -3.0, 10.0]))]
+            elif kind_ == 1:
+                ft = ['bin', draw(st.sampled_from(['*', '+', '-'])), ['ref', list(draw(st.sampled_from(mine)))], ['num', 2.0]]
+            elif kind_ == 2:
+                ft = ['bin', '+', ['ref', list(draw(st.sampled_from(mine)))], ['ref', list(draw(st.sampled_from(mine)))]]
+            else:
+                k0 = draw(st.sampled_from(mine))
+                same = [k_ for k_ in mine if k_[:2] == k0[:2] and k_ not in {x for g in ctx['arr_groups'] for x in g}]
+                if same:
+                    r1_, r2_ = min(k_[2] for k_ in same), max(k_[2] for k_ in same)
+                    c1_, c2_ = min(k_[3] for k_ in same), max(k_[3] for k_ in same)
+                    if not any(k_[:2] == k0[:2] and r1_ <= k_[2] <= r2_ and c1_ <= k_[3] <= c2_ for k_ in later):
+                        ft = ['fn', 'SUM', ['rng', [k0[0], k0[1], r1_, c1_, r2_, c2_]]]
+            if ft is not None:
+                spec['fnames'].append({'name': FNAME_POOL[len(spec['fnames'])], 'f': ft, 'book': key[0]})
         if arr is not None:
             t = draw(_array_tree(ctx, (arr[0] - key[2] + 1, arr[1] - key[3] + 1)))
             if t is not None:
@@ -558,6 +595,10 @@ def _scalar_ref(draw, ctx):
     names = ctx['spec']['names']
     # a defined name is scoped to its workbook: only cells of that book use it
     single = [i for i, nm in enumerate(names) if nm['rect'][2:4] == nm['rect'][4:6] and nm['rect'][0] == ctx['cur'][0]]
+    fn_mine = [i for i, fn in enumerate(ctx['spec'].get('fnames', [])) if fn['book'] == ctx['cur'][0]]
+    if kind in (0, 2) and fn_mine and draw(st.booleans()):
+        i = draw(st.sampled_from(fn_mine))
+        return ['fname', i, ctx['spec']['fnames'][i]['f']]
     if kind == 0 and single:
         return ['name', draw(st.sampled_from(single))]
     if kind == 1:
